@@ -8,6 +8,11 @@ Import ListNotations.
 From Coq Require Import Permutation.
 From UV Require Import Py.Val Py.Str Py.UrlLib Ural.Utils Ural.Quote Ural.InferRedirection Ural.Normalize Proofs.NormFacts Proofs.SortFacts Ural.Canonicalize Proofs.ControlFacts Proofs.NormJunk.
 
+Theorem C04_inference_is_a_prestep_full : forall e o u t,
+  infer_redirection_o o = true -> infer_redirection e u = Ok t ->
+  normalize_split e o u = normalize_split e (no_infer o) t.
+Proof. exact normalize_is_prestep_full. Qed.
+
 Theorem C04_inference_is_a_prestep : forall e o u t r hp,
   infer_redirection_o o = true -> infer_redirection e u = Ok t ->
   normalize_split e o u = Ok (NSplit r hp) ->
@@ -42,6 +47,7 @@ Theorem C04_surrounding_junk : forall e o a u b,
   (normalize_url e o u = Ok u /\ normalize_url e o (a ++ u ++ b) = Ok (a ++ u ++ b)).
 Proof. exact normalize_url_junk. Qed.
 
+Print Assumptions C04_inference_is_a_prestep_full.
 Print Assumptions C04_surrounding_junk_core.
 Print Assumptions C04_surrounding_junk.
 Print Assumptions C04_inference_is_a_prestep.
